@@ -521,7 +521,16 @@ fn real_kill_unit(i: usize, out: &mut Out) {
             .arg(&d)
             .stdout(std::process::Stdio::null())
             .stderr(std::process::Stdio::null())
-            .status();
+            .spawn()
+            .and_then(|mut ch| {
+                let pid = ch.id();
+                let st = ch.wait();
+                // the child is aborted by design and cannot remove its own scratch root
+                if let Some(parent) = scratch::root().parent() {
+                    std::fs::remove_dir_all(parent.join(format!("fxv.{pid}"))).ok();
+                }
+                st
+            });
         out.evaluations += 1;
         let aborted = status.as_ref().map_or(false, |s| !s.success());
         if !aborted {
